@@ -47,6 +47,7 @@ class StlPastifier(LtlPastifier, StlAstVisitor):
     def pastify(self, ast):
         self.ast = ast
         h = StlHorizon(ast)
+        h.sample_step = self.sample_step
         horizons = dict()
         for spec in ast.specs:
             horizon = h.visit(spec, None)
@@ -418,12 +419,12 @@ class StlPastifier(LtlPastifier, StlAstVisitor):
         return node
 
     def visitNext(self, node, *args, **kwargs):
-        horizon = args[0] - 1
+        horizon = args[0] - self.sample_step
         child_node = self.visit(node.children[0], horizon)
         return child_node
 
     def visitStrongNext(self, node, *args, **kwargs):
-        horizon = args[0] - 1
+        horizon = args[0] - self.sample_step
         child_node = self.visit(node.children[0], horizon)
         return child_node
 
